@@ -10,3 +10,7 @@ open Model.EffectFacts in
 #print axioms append_writes_and_checks_before_publishing
 open Model.EffectFacts in
 #print axioms no_block_removal
+#print axioms run_store_grows
+#print axioms source_in_store
+#print axioms published_state_loads
+#print axioms Model.reachable_refsIn
